@@ -27,10 +27,7 @@ theorem entryIndex_small {e e' : LookupEnc} {k : String} {oid : Option Nat} (h :
     (he : e.entryIndex k = .ok (e', oid)) :
     e'.Small ∧ ∀ id, oid = some id → id ≤ MAX_LOOKUP_SIZE := by
   by_cases hpos : 0 < e.lookup.maxSize
-  · obtain ⟨e'', oid'', heq, c⟩ := entryIndex_cases h.1 hpos k
-    rw [he] at heq
-    simp only [Except.ok.injEq, Prod.mk.injEq] at heq
-    obtain ⟨rfl, rfl⟩ := heq
+  · have c := entryIndex_ok_case h.1 hpos he
     obtain ⟨wf', hmax, _, _⟩ := c.basic h.1 hpos
     refine ⟨⟨wf', by rw [hmax]; exact h.2⟩, ?_⟩
     intro id hid
@@ -42,7 +39,7 @@ theorem entryIndex_small {e e' : LookupEnc} {k : String} {oid : Option Nat} (h :
       simp only [Option.some.injEq] at hid
       subst hid
       split <;> omega
-    | evict k0 i0 rest hk hd hfull he' ho =>
+    | evict k0 i0 rest hk hd hfull hnp he' ho =>
       rw [ho] at hid
       simp only [Option.some.injEq] at hid
       subst hid
@@ -72,8 +69,8 @@ theorem termIndex_small {e e' : LookupEnc} {v : String} {i : Nat} (h : e.Small)
       rw [hf] at hm
       simp only [Option.some.injEq] at hm
       have hmem : e0 ∈ e.lookup.data := List.mem_of_find?_eq_some hf
-      have wf' : l'.WF := by rw [← hm]; exact h.1.bump hmem
-      have hmax : l'.maxSize = e.lookup.maxSize := by rw [← hm]
+      have wf' : l'.WF := by rw [← hm]; exact (h.1.bump hmem).congr (by simp [Lookup.bump]) (by simp) (by simp)
+      have hmax : l'.maxSize = e.lookup.maxSize := by rw [← hm]; simp
       cases hf2 : l'.find? v with
       | none => rw [hf2] at he; cases he
       | some x =>
@@ -143,6 +140,12 @@ structure TermEnc.Small (te : TermEnc) : Prop where
   names : te.names.Small
   prefixes : te.prefixes.Small
   datatypes : te.datatypes.Small
+
+theorem LookupEnc.Small.startRow {e : LookupEnc} (h : e.Small) : e.startRow.Small :=
+  ⟨h.1.congr rfl rfl rfl, h.2⟩
+
+theorem TermEnc.Small.startRow {te : TermEnc} (h : te.Small) : te.startRow.Small :=
+  ⟨h.names.startRow, h.prefixes.startRow, h.datatypes.startRow⟩
 
 theorem wireWF_of_le_max {id : Nat} (h : id ≤ MAX_LOOKUP_SIZE) : id < U32 := by
   simp only [MAX_LOOKUP_SIZE] at h
@@ -462,7 +465,7 @@ theorem encodeTriple_small (exc : PyErr) (st st' : EncState) (terms : List Term)
         · rename_i h3
           simp only [Prod.mk.injEq, Except.ok.injEq] at h
           obtain ⟨rfl, rfl⟩ := h
-          obtain ⟨s1, r1, w1, d1⟩ := encSlot_spo_small _ _ _ _ _ _ _ hs h1
+          obtain ⟨s1, r1, w1, d1⟩ := encSlot_spo_small _ _ _ _ _ _ _ hs.startRow h1
           obtain ⟨s2, r2, w2, d2⟩ := encSlot_spo_small _ _ _ _ _ _ _ s1 h2
           obtain ⟨s3, r3, w3, d3⟩ := encSlot_spo_small _ _ _ _ _ _ _ s2 h3
           refine ⟨s3, ?_⟩
@@ -507,7 +510,7 @@ theorem encodeQuad_small (exc : PyErr) (st st' : EncState) (terms : List Term) (
           · rename_i h4
             simp only [Prod.mk.injEq, Except.ok.injEq] at h
             obtain ⟨rfl, rfl⟩ := h
-            obtain ⟨s1, r1, w1, d1⟩ := encSlot_spo_small _ _ _ _ _ _ _ hs h1
+            obtain ⟨s1, r1, w1, d1⟩ := encSlot_spo_small _ _ _ _ _ _ _ hs.startRow h1
             obtain ⟨s2, r2, w2, d2⟩ := encSlot_spo_small _ _ _ _ _ _ _ s1 h2
             obtain ⟨s3, r3, w3, d3⟩ := encSlot_spo_small _ _ _ _ _ _ _ s2 h3
             obtain ⟨s4, r4, w4⟩ := encSlot_graph_small _ _ _ _ _ _ _ s3 h4
@@ -616,10 +619,10 @@ theorem Stream.graph_wf (exc : PyErr) (s : Stream) (g : Term) (ts : List (List T
     RowsWireWF (s.graph exc g ts).2.1 (s.graph exc g ts).1.flow ∧
     ((s.graph exc g ts).2.2 = none → (s.graph exc g ts).1.enc.te.Small) := by
   rw [Stream.graph_eq]
-  rcases hg : s.enc.te.graph g with ⟨te', e | ⟨rows, w⟩⟩
+  rcases hg : s.enc.te.startRow.graph g with ⟨te', e | ⟨rows, w⟩⟩
   · exact ⟨.nil hs, by simp⟩
   · dsimp only
-    obtain ⟨a, b, c⟩ := graph_small _ _ _ _ _ hsm hg
+    obtain ⟨a, b, c⟩ := graph_small _ _ _ _ _ hsm.startRow hg
     have h0 : RowsWireWF [] (({ s with enc := { s.enc with te := te' } } : Stream).pushRows
         (rows ++ [Row.graphStart (some w)])).flow := by
       refine .nil ?_
